@@ -466,6 +466,10 @@ def tasks(tier):
         ts.append(Task('min-step.all-subsets', t_min_step('all'), overrides=dict(ov), extra=dict(x, task_timeout_s=3600)))
     ts.append(Task('step.2sym.5m', t_step_two_symbols('5m'), extra=dict(x), overrides=dict(ov), invariants={}))
     ts.append(Task('strategy-reads', t_strategy_reads, extra=dict(x)))
+    # 'the stored one-minute candles equal the input candles': what the fast simulator hands to the store in one batch is stored by
+    # add_multiple_1m_candles - appended, replaced, or partly both (its contract, shared with C20)
+    import props.C20 as P20
+    ts += [t for t in P20.tasks(tier) if t.id.startswith('multi.')]
     ts.append(Task('fixed-jump', t_fixed_jump, extra=dict(x), overrides=dict(ov)))
     # the 1m candle stored by the match loop is the whole minute (not what a fill left over): shared with C02
     import props.C02 as P2
